@@ -527,6 +527,9 @@ def run(p, rep, tier):
     # clauses shared with C02 / C12 whose violation surfaces as an internal exception type of an entry point
     from . import c02, c12
 
+    from . import c09 as _c09
+
+    _c09.r8(p, rep)  # a two-operand operation registered behind the n-ary fold accepts any number of tensors
     c02.r6(p, rep)  # non-integer sizes are rejected by a guard, not by a failing conversion deep in the solver
     c12.r12(p, rep)  # positions of synthesised nodes must not reach the error constructors
     c12.r7(p, rep)  # an exclusive end position used as a caret position trips the asserts of the error constructors
